@@ -16,7 +16,8 @@
    and C09 proves predictions row-wise in the ids. *)
 From Coq Require Import ZArith List Bool.
 From Batchie Require Import Lib.Sexp Generated.Consts Generated.SrcArithC03 Model.Encode Model.Screen Model.Reveal Model.Holdout
-  Proofs.C03Base Proofs.C03Screen Proofs.C12Reveal Proofs.C03Frozen Proofs.C03Witness Generated.SrcReveal Proofs.C12Source.
+  Proofs.C03Base Proofs.C03Screen Proofs.C12Reveal Proofs.C03Frozen Proofs.C03Witness Generated.SrcReveal
+  Proofs.C12Source_Base Proofs.C12Source_Reveal Proofs.C12Source_Variant.
 Import ListNotations.
 Open Scope Z_scope.
 
